@@ -322,13 +322,14 @@ class Gen:
         region is closed first (needed for lint mode)."""
         order = sorted(self.threads(), key=lambda t: 0 if t.state == RUNNING else 1)
         for th in order:
+            if th.out_of_cpu and th.state != DEAD:
+                # (also a thread switched out before its first execute event)
+                assert self.emit(th.key, "KCI")
             if th.state == UNKNOWN:
                 cpu = th.loom.vcpu
                 assert self.emit(th.key, "OHx", obs.i32(-1, th.tid, 0))
             if th.state == DEAD:
                 continue
-            if th.out_of_cpu:
-                assert self.emit(th.key, "KCI")
             if th.state == COOLING:
                 assert self.emit(th.key, "OHp")
             if th.state in (PAUSED, WARMING):
